@@ -29,7 +29,7 @@ func ruleJoinedAlwaysClosed(ctx *Ctx, rule string) {
 	// the conditions under which the join is committed (p.next = parent)
 	common := map[string]bool{}
 	found := false
-	for _, b := range f.Blocks {
+	for _, b := range frameBlocks(f) {
 		for _, in := range b.Instrs {
 			st, ok := in.(*ssa.Store)
 			if !ok {
@@ -48,7 +48,7 @@ func ruleJoinedAlwaysClosed(ctx *Ctx, rule string) {
 		return
 	}
 	n := 0
-	for _, b := range f.Blocks {
+	for _, b := range frameBlocks(f) {
 		for _, in := range b.Instrs {
 			cc, ok := ssaq.BuiltinCall(in, "close")
 			if !ok || len(cc.Args) != 1 {
